@@ -44,7 +44,7 @@ TECHNIQUE = ("Coq proof (totality incl. fuel, soundness, completeness of the eng
              "and valid_arg_found proved equal to the parser's counter and flag; round 5: value terminators of options and positionals; "
              "level correspondence) + extracted-model/implementation "
              "correspondence")
-LEVEL_TEXT = ("Machine-checked theorems (Coq 8.16, 77 pinned, all closed under the global context) about a function-by-function "
+LEVEL_TEXT = ("Machine-checked theorems (Coq 8.16, 78 pinned, all closed under the global context) about a function-by-function "
               "model of clap_complete::engine::complete: no panic site is reachable and no fuel runs out for any command, argv "
               "and index (build_full's fuel proved sufficient); in state ValueDone every option/subcommand candidate extends the "
               "word and names an option/alias/subcommand of the level reached by the shadow parse; under assert_app's uniqueness "
@@ -91,6 +91,10 @@ LEVEL_TEXT = ("Machine-checked theorems (Coq 8.16, 77 pinned, all closed under t
               "non-empty short cluster is handled by both machines exactly as between arguments (level without hyphen-accepting arguments: "
               "hyphen_free); item18 therefore also contains partially filled occurrences `--opt v1..vj <item>` (the minimum is judged by the parser's "
               "flush: TooFewValues-class, never an unknown error; non-vacuity EngineTerm.PartialLine).  "
+              "A bounded multi-valued positional that has all the values the engine's num_args admits (body18's b18_multi_max; body18 now carries the "
+              "engine's index beside the parser's counter): the engine is in ValueDone at index+1 where the parser stays in PSPos at the counter "
+              "(C18_state_agreement_positionals, restated); a subcommand name behind it is read by both iff the level sets "
+              "subcommand_precedence_over_arg - such lines are in pline (non-vacuity EngineTerm.MaxLine).  "
               "C18_terminator_before_after: the unrepaired loop stood at the wrong level behind `p --opt a ; sub` / `p a ; sub` and offered an "
               "option the parser rejects as unknown, the repaired one stands where the parser does.  "
               "The model is tied to clap_complete by running the extracted model "
@@ -101,7 +105,7 @@ LEVEL_NOTE = ("Trusted: Coq kernel, extraction, OCaml driver, Rust harness, gene
               "stream `order` compares lists with the real crate); agreement of the shadow parse's "
               "state with the parser's OUTSIDE the classes item18/pitems18/body18 (partially filled multi-valued options on a level with "
               "hyphen-accepting arguments, a terminator that starts with `-` or follows the maximum of the range, hyphen values, require_equals, low-index multiples / allow_missing_positional, "
-              "a bounded multi-valued positional after its maximum, flag subcommands, inferred names, the generated help subtree); "
+              "a line that goes on at the same level behind a full bounded multi-valued positional (the two counters differ by one), flag subcommands, inferred names, the generated help subtree); "
               "acceptance on whole lines by the REAL parser; custom/path completers not modelled.  Finding C18-value-terminator (the engine did "
               "not know Arg::value_terminator; C18_terminator_before_after, corpus accept.value-terminator.cases) is repaired by "
               "docs/pending/engine_value_terminator_fix.diff, which model and proofs follow: until it is committed in /repo the check fails "
@@ -110,7 +114,10 @@ LEVEL_NOTE = ("Trusted: Coq kernel, extraction, OCaml driver, Rust harness, gene
               "(C18_require_equals_refuted: `p --opt <TAB>` offers a value the parser rejects with UnknownArgument); an option "
               "without long name but with a visible alias is neither recognised by the shadow parse (C18_same_long_refuted) nor "
               "offered (C18_complete_options_alias_refuted = known finding C18-alias-without-primary); --alias=<TAB> offers no values "
-              "(C18_long_alias_value_refuted).")
+              "(C18_long_alias_value_refuted).  Known finding C18-low-index-multiples (round 5, not repaired): the engine has no counterpart of the "
+              "parser's low-index-multiples correction of the positional counter - behind `p a b sub` (files=[a], dst=b for the parser) it still "
+              "fills <files> at `p` and offers an option the parser rejects as unknown (C18_low_index_multiples_refuted; corpus witness; the "
+              "premise pos_plain of the positional theorems is necessary).")
 
 U64_MAX = 2**64 - 1
 BAD_KINDS = {"UnknownArgument", "InvalidSubcommand", "PANIC"}
@@ -286,6 +293,7 @@ def scan_prefix(root, words):
     in_pos = False      # a multiple positional is being filled (the parser's ParseState::Pos)
     weak = False        # ... has happened: only soundness is judged from then on
     seen_arg = False    # an option / flag / positional value of the CURRENT level was read (reset on descent)
+    lowidx = False      # a word was read as a value of a multi-valued positional that is not the last positional of its level
     while i < n:
         if level["flags"] & UNSAFE_CMD_FLAGS:
             return None
@@ -373,13 +381,21 @@ def scan_prefix(root, words):
                 pc += 1
                 i += 1
                 continue
-        if len(pos) == 1 and (pos[0]["max"] >= 2**62 or "append" in pos[0]["flags"]) and pos[0]["min"] <= 1 \
+        if len(pos) == 1 and (pos[0]["max"] >= 2 or "append" in pos[0]["flags"]) and pos[0]["min"] <= 1 \
                 and not pos[0]["flags"] & {"last", "tva", "hyphen", "negnum", "delim"}:
-            # unbounded / appending positional: every further plain word is one of its values, also one
-            # that names a subcommand (Parser::get_matches_with looks for subcommands only outside Pos)
+            # multi-valued / appending positional: every further plain word is one of its values, also one
+            # that names a subcommand (Parser::get_matches_with looks for subcommands only outside Pos); the parser
+            # keeps collecting beyond the maximum of a bounded range (then the prefix line is TooManyValues at
+            # validation and CLEAN_PREFIX drops the case)
             in_pos = True
             weak = True
             seen_arg = True
+            if "term" not in pos[0]["flags"] \
+                    and any("positional" in a["flags"] and a.get("index", 0) > pc + 1 for a in level["args"]):
+                # clap's "low index multiples": which positional takes a word depends on the NEXT word (Parser::get_matches_with
+                # peeks; not for a positional with a value terminator); the scan reads the word as a value of the multiple
+                # positional - known finding C18-low-index-multiples
+                lowidx = True
             i += 1
             continue
         # a positional that takes several values or appends is "multiple" for the parser: while it is being
@@ -396,7 +412,7 @@ def scan_prefix(root, words):
     # component): the parser answers ArgumentConflict, takes the name as the value of a positional, or answers UnknownArgument
     # when the positional at the counter is last(true); no subcommand candidate may be offered there and none is required
     nosubs = bool(seen_arg and "args_conflicts_with_subcommands" in level["flags"])
-    return level, weak, nosubs
+    return level, weak, nosubs, lowidx
 
 
 def decode_case(case):
@@ -432,7 +448,7 @@ def accept_oracle(case, impl):
     sc = scan_prefix(root, argv[start:index])
     if sc is None:
         return None
-    level, weak, nosubs = sc
+    level, weak, nosubs, lowidx = sc
     word = argv[index]
     acc = {}
     ids = {}
@@ -490,6 +506,9 @@ def accept_oracle(case, impl):
                     (find_short(level, ch) or {"max": 1})["max"] == 0 for ch in word.decode("utf-8", "replace")[1:])
                 if not cluster or typed_ok:
                     what = "is rejected by the real parser on the completed line (%s)" % acc.get(v)
+                    if lowidx:
+                        # recorded finding: the engine does not model the parser's low-index-multiples counter correction
+                        what += " [low-index-multiples]"
             if what:
                 return "candidate %r %s" % (v, what)
     # ---- hidden only when nothing visible matches
@@ -1093,4 +1112,6 @@ def streams(tier, rng):
 def classify_known(stream, case, impl, failure):
     if isinstance(failure, str) and failure.endswith("[alias-without-primary]"):
         return "C18-alias-without-primary"
+    if isinstance(failure, str) and failure.endswith("[low-index-multiples]"):
+        return "C18-low-index-multiples"
     return None
